@@ -5,6 +5,7 @@ import ast
 
 from vlib import truthy
 from vlib.core import AnalysisError, Repo, Report, norm, own_nodes
+from vlib.core import layer as _layer
 
 EXPLANATION = (
     "(a) JSON: for every term class, the 'type' tag and the keys termToJSON writes are read back by parseJsonTerm into "
@@ -27,30 +28,52 @@ EXPLANATION = (
 TERM_CLASSES = ("URIRef", "BNode", "Literal")
 
 
-def _isinstance_arms(fn: ast.AST, var: str):
-    """yield (class name, body) for `if isinstance(var, Cls)` chains"""
-    for n in ast.walk(fn):
-        if isinstance(n, ast.If) and isinstance(n.test, ast.Call) and norm(n.test.func) == "isinstance" and len(n.test.args) == 2 and norm(n.test.args[0]) == var:
-            yield norm(n.test.args[1]), n.body
+def _isinstance_arms(repo: Repo, mod, fn: ast.AST, var: str):
+    """yield (class name, code) for the classes that fn dispatches on with isinstance(var, ..): the arms of an if-chain or
+    the rows of a constant table that a loop scans (vlib.h_c16.class_arms); `code` is the arm and what it calls in the module"""
+    from vlib import h_c16 as H
+
+    for cls, code, _arm in H.class_arms(repo, mod, fn, var):
+        yield cls, code
+
+
+def _top_functions(mod):
+    """the functions of a module that are not nested in another function (those are walked with their parent)"""
+    for q, f in mod.functions():
+        if "." in q and isinstance(mod.defs.get(q.rsplit(".", 1)[0]), (ast.FunctionDef, ast.AsyncFunctionDef)):
+            continue
+        yield q, f
+
+
+def _calls_of(fn: ast.AST, name: str) -> list:
+    return [c for c in ast.walk(fn) if isinstance(c, ast.Call) and norm(c.func).split(".")[-1] == name]
 
 
 def run(repo: Repo, rep: Report) -> None:
+    """the first rules; every rule is a layer of its own (vlib.core.layer): one that loses its anchor on the tree as it is, or on
+    one of its equivalent views, does not take the others with it"""
     rep.extra["explanation"] = EXPLANATION
-    js = repo.mod("rdflib.plugins.sparql.results.jsonresults")
-    xm = repo.mod("rdflib.plugins.sparql.results.xmlresults")
-    typed = repo.typed
+    for f in (rule_a_json_tags_agree, rule_b_xml_tags_agree, rule_c_unbound_by_identity, more_rules,
+              rule_d_sax_characters_get_str, rule_e_rows_from_bindings, rule_f_no_splitlines):
+        _layer(rep, f, repo)
 
-    # ------------------------------------------------------------------ (a)
-    rep.rule("C16.a-json-tags-agree", "each term class's JSON 'type' tag and keys written by termToJSON are read back by parseJsonTerm into that class", floor=5)
+
+# ------------------------------------------------------------------------------------------------------------------ (a)
+def rule_a_json_tags_agree(repo: Repo, rep: Report) -> None:
+    from vlib import h_c16 as H
+
+    RULE = "C16.a-json-tags-agree"
+    rep.rule(RULE, "each term class's JSON 'type' tag and keys written by termToJSON are read back by parseJsonTerm into that class", floor=5)
+    js = repo.mod("rdflib.plugins.sparql.results.jsonresults")
     tw = js.func("termToJSON")
     tr = js.func("parseJsonTerm")
     rep.analysed("rdflib/plugins/sparql/results/jsonresults.py:termToJSON", "rdflib/plugins/sparql/results/jsonresults.py:parseJsonTerm")
     tv = tw.args.args[1].arg
     written = {}
-    for cls, body in _isinstance_arms(tw, tv):
+    for cls, code in _isinstance_arms(repo, js, tw, tv):
         tag = None
         keys = set()
-        for n in [x for s in body for x in ast.walk(s)]:
+        for n in [x for s in code for x in ast.walk(s)]:
             if isinstance(n, ast.Dict):
                 for k, v in zip(n.keys, n.values):
                     if isinstance(k, ast.Constant):
@@ -84,42 +107,81 @@ def run(repo: Repo, rep: Report) -> None:
     for cls, (tag, keys) in sorted(written.items()):
         rc, rk = read.get(tag, (None, set()))
         ok = rc == cls and (keys - {"type"}) <= rk
-        rep.ob("C16.a-json-tags-agree", js, "termToJSON/parseJsonTerm", "%s <-> type %r keys %s" % (cls, tag, sorted(keys - {"type"})), ok,
+        rep.ob(RULE, js, "termToJSON/parseJsonTerm", "%s <-> type %r keys %s" % (cls, tag, sorted(keys - {"type"})), ok,
                "read back as %s with keys %s" % (rc, sorted(rk)) if ok else "written as type %r with keys %s but read as %s with keys %s" % (tag, sorted(keys), rc, sorted(rk)), node=tw)
     # None -> None (unbound) by identity
     none_arm = any(isinstance(n, ast.If) and isinstance(n.test, ast.Compare) and isinstance(n.test.ops[0], ast.Is) and norm(n.test.left) == tv for n in ast.walk(tw))
-    rep.ob("C16.a-json-tags-agree", js, "termToJSON", "%s is None -> None" % tv, none_arm, "" if none_arm else "termToJSON no longer maps exactly None to 'unbound'", node=tw)
-    bj = js.func("JSONResultSerializer._bindingToJSON")
-    skips = [n for n in ast.walk(bj) if isinstance(n, (ast.If, ast.comprehension))]
-    ok = True
-    why = ""
-    for n in skips:
-        tests = [n.test] if isinstance(n, ast.If) else n.ifs
-        for t in tests:
-            if not (isinstance(t, ast.Compare) and isinstance(t.ops[0], ast.IsNot) and isinstance(t.comparators[0], ast.Constant) and t.comparators[0].value is None):
-                ok = False
-                why = "cell skipped under `%s`" % norm(t)
-    rep.ob("C16.a-json-tags-agree", js, "JSONResultSerializer._bindingToJSON", "a cell is omitted only when it `is None`", ok,
-           "" if ok else why + ": a bound but falsy term (Literal(0), Literal('')) is written as unbound", node=bj)
+    rep.ob(RULE, js, "termToJSON", "%s is None -> None" % tv, none_arm, "" if none_arm else "termToJSON no longer maps exactly None to 'unbound'", node=tw)
+    # whoever turns a row into its JSON object (the callers of termToJSON in the module) leaves a cell out only when it `is None`
+    callers = [(q, f) for q, f in _top_functions(js) if f is not tw and _calls_of(f, "termToJSON")]
+    if not callers:
+        raise AnalysisError("nothing in %s calls termToJSON: the function that writes a row was not found" % js.rel)
+    for q, bj in callers:
+        rep.analysed("%s:%s" % (js.rel, q))
+        # the tests that decide about one cell: those of the row loop the term is converted in (the whole function when there is none)
+        scopes = []
+        for c in _calls_of(bj, "termToJSON"):
+            sc = next((p for p in js.parents(c) if isinstance(p, (ast.For, ast.While, ast.ListComp, ast.DictComp, ast.SetComp, ast.GeneratorExp)) or p is bj), bj)
+            if not any(sc is x for x in scopes):
+                scopes.append(sc)
+        ok = True
+        why = ""
+        for sc in scopes:
+            for n in ast.walk(sc):
+                if not isinstance(n, (ast.If, ast.comprehension)):
+                    continue
+                tests = [n.test] if isinstance(n, ast.If) else n.ifs
+                for t in tests:
+                    if not (isinstance(t, ast.Compare) and isinstance(t.ops[0], ast.IsNot) and isinstance(t.comparators[0], ast.Constant) and t.comparators[0].value is None):
+                        ok = False
+                        why = "cell skipped under `%s`" % norm(t)
+        rep.ob(RULE, js, q, "a cell is omitted only when it `is None`", ok,
+               "" if ok else why + ": a bound but falsy term (Literal(0), Literal('')) is written as unbound", node=bj)
 
-    # ------------------------------------------------------------------ (b)
-    rep.rule("C16.b-xml-tags-agree", "element and attribute names written per term class by write_binding are those parseTerm reads, into the same class", floor=4)
+
+# ------------------------------------------------------------------------------------------------------------------ (b)
+def rule_b_xml_tags_agree(repo: Repo, rep: Report) -> None:
+    """The names are compared as the texts they denote: a tag or attribute name may be written in place, built with + / % /
+    an f-string, or be a module-level constant (vlib.h_c16.fold_text)."""
+    from vlib import h_c16 as H
+
+    RULE = "C16.b-xml-tags-agree"
+    rep.rule(RULE, "element and attribute names written per term class by write_binding are those parseTerm reads, into the same class", floor=4)
+    xm = repo.mod("rdflib.plugins.sparql.results.xmlresults")
     wb = xm.func("SPARQLXMLWriter.write_binding")
     pt = xm.func("parseTerm")
     rep.analysed("rdflib/plugins/sparql/results/xmlresults.py:SPARQLXMLWriter.write_binding", "rdflib/plugins/sparql/results/xmlresults.py:parseTerm")
+
+    def qname(fn: ast.AST, ns: ast.expr, local: ast.expr):
+        """ElementTree's spelling {namespace}local of a SAX name (namespace, local); None when it is not constant"""
+        hidden = H.local_names(fn)
+        loc = H.fold_text(repo, xm, local, hidden)
+        if loc is None:
+            return None
+        if isinstance(ns, ast.Constant) and ns.value is None:
+            return loc
+        n_ = H.fold_text(repo, xm, ns, hidden)
+        return None if n_ is None else "{%s}%s" % (n_, loc)
+
+    def local_of(q):
+        return q.rsplit("}", 1)[-1] if isinstance(q, str) else q
+
     vv = wb.args.args[2].arg
     wx = {}
     wattrs = set()
-    for cls, body in _isinstance_arms(wb, vv):
-        attr_dicts = {norm(c.args[0]) for s in body for c in ast.walk(s) if isinstance(c, ast.Call) and norm(c.func).endswith("AttributesNSImpl") and c.args and isinstance(c.args[0], ast.Name)}
-        for n in [x for s in body for x in ast.walk(s)]:
-            if isinstance(n, ast.Call) and isinstance(n.func, ast.Attribute) and n.func.attr == "startElementNS" and n.args and isinstance(n.args[0], ast.Tuple):
-                wx[cls] = n.args[0].elts[1].value if isinstance(n.args[0].elts[1], ast.Constant) else None
-            if cls == "Literal" and isinstance(n, ast.Assign) and isinstance(n.targets[0], ast.Subscript) and norm(n.targets[0].value) in attr_dicts and isinstance(n.targets[0].slice, ast.Tuple):
-                wattrs.add((norm(n.targets[0].slice.elts[0]), n.targets[0].slice.elts[1].value))
+    for cls, code in _isinstance_arms(repo, xm, wb, vv):
+        nodes = [x for s in code for x in ast.walk(s)]
+        attr_dicts = {norm(c.args[0]) for c in nodes if isinstance(c, ast.Call) and norm(c.func).endswith("AttributesNSImpl") and c.args and isinstance(c.args[0], ast.Name)}
+        for n in nodes:
+            if isinstance(n, ast.Call) and isinstance(n.func, ast.Attribute) and n.func.attr == "startElementNS" and n.args and isinstance(n.args[0], ast.Tuple) and len(n.args[0].elts) == 2:
+                wx[cls] = qname(wb, n.args[0].elts[0], n.args[0].elts[1])
+            if cls == "Literal" and isinstance(n, ast.Assign) and isinstance(n.targets[0], ast.Subscript) and norm(n.targets[0].value) in attr_dicts \
+                    and isinstance(n.targets[0].slice, ast.Tuple) and len(n.targets[0].slice.elts) == 2:
+                wattrs.add(qname(wb, n.targets[0].slice.elts[0], n.targets[0].slice.elts[1]) or norm(n.targets[0].slice))
     rx = {}
     rattrs = set()
     elem = pt.args.args[0].arg
+    hidden_pt = H.local_names(pt)
     tagvars = {elem + ".tag"}
     for n in own_nodes(pt):
         if isinstance(n, ast.Assign):
@@ -131,9 +193,10 @@ def run(repo: Repo, rep: Report) -> None:
             elif norm(vals) == elem + ".tag":
                 tagvars.add(norm(tg))
     for n in ast.walk(pt):
-        if isinstance(n, ast.If) and isinstance(n.test, ast.Compare) and norm(n.test.left) in tagvars and isinstance(n.test.comparators[0], ast.BinOp):
-            c = n.test.comparators[0]
-            local = c.right.value if isinstance(c.right, ast.Constant) else None
+        if isinstance(n, ast.If) and isinstance(n.test, ast.Compare) and len(n.test.ops) == 1 and norm(n.test.left) in tagvars:
+            full = H.fold_text(repo, xm, n.test.comparators[0], hidden_pt)
+            if full is None:
+                continue
             cls = None
             for x in [y for s in n.body for y in ast.walk(s)]:
                 if isinstance(x, ast.Return):
@@ -144,29 +207,27 @@ def run(repo: Repo, rep: Report) -> None:
                             if isinstance(a, ast.Assign) and norm(a.targets[0]) == x.value.id and isinstance(a.value, ast.Call):
                                 cls = norm(a.value.func)
                 if isinstance(x, ast.Call) and norm(x.func) == elem + ".get" and x.args:
-                    a0 = x.args[0]
-                    if isinstance(a0, ast.Constant):
-                        rattrs.add(("None", a0.value))
-                    elif isinstance(a0, ast.BinOp) and isinstance(a0.left, ast.Constant) and "lang" in a0.left.value:
-                        rattrs.add((norm(a0.right), "lang"))
-            rx[local] = cls
+                    a0 = H.fold_text(repo, xm, x.args[0], hidden_pt)
+                    if a0 is not None:
+                        rattrs.add(a0)
+            rx[full] = cls
     if set(wx) != set(TERM_CLASSES):
         raise AnalysisError("write_binding: expected arms for %s, found %s" % (TERM_CLASSES, sorted(wx)))
-    for cls, local in sorted(wx.items()):
-        ok = rx.get(local) == cls
-        rep.ob("C16.b-xml-tags-agree", xm, "write_binding/parseTerm", "%s <-> <%s>" % (cls, local), ok,
-               "read back as %s" % cls if ok else "written as <%s> but that element is read as %s" % (local, rx.get(local)), node=wb)
+    for cls, q in sorted(wx.items()):
+        ok = q is not None and rx.get(q) == cls
+        rep.ob(RULE, xm, "write_binding/parseTerm", "%s <-> <%s>" % (cls, local_of(q)), ok,
+               "read back as %s" % cls if ok else "written as <%s> but that element is read as %s" % (local_of(q), rx.get(q)), node=wb)
     ok = bool(wattrs) and wattrs <= rattrs
-    rep.ob("C16.b-xml-tags-agree", xm, "write_binding/parseTerm", "literal attributes %s" % sorted(wattrs), ok,
+    rep.ob(RULE, xm, "write_binding/parseTerm", "literal attributes %s" % sorted(local_of(a) for a in wattrs), ok,
            "all read by parseTerm" if ok else "attributes written %s, read %s" % (sorted(wattrs), sorted(rattrs)), node=wb)
 
-    # ------------------------------------------------------------------ (c)
+
+# ------------------------------------------------------------------------------------------------------------------ (c)
+def rule_c_unbound_by_identity(repo: Repo, rep: Report) -> None:
     rep.rule("C16.c-unbound-by-identity", "in the result writers/readers a cell's None-ness is decided by identity, not by the truthiness of a term", floor=2)
     for name in ("jsonresults", "xmlresults", "csvresults", "tsvresults", "txtresults"):
         mod = repo.mod("rdflib.plugins.sparql.results." + name)
-        for q, f in mod.functions():
-            if "." in q and isinstance(mod.defs.get(q.rsplit(".", 1)[0]), ast.FunctionDef):
-                continue
+        for q, f in _top_functions(mod):
             truthy.scan(repo, rep, "C16.c-unbound-by-identity", mod, f, q, exempt=EXEMPT)
             rep.analysed("%s:%s" % (mod.rel, q))
     qm = repo.mod("rdflib.query")
@@ -174,9 +235,11 @@ def run(repo: Repo, rep: Report) -> None:
         if qm.has(q):
             truthy.scan(repo, rep, "C16.c-unbound-by-identity", qm, qm.func(q), q, exempt=EXEMPT)
 
-    more_rules(repo, rep)
 
-    # ------------------------------------------------------------------ (d)
+# ------------------------------------------------------------------------------------------------------------------ (d)
+def rule_d_sax_characters_get_str(repo: Repo, rep: Report) -> None:
+    xm = repo.mod("rdflib.plugins.sparql.results.xmlresults")
+    typed = repo.typed
     rep.rule("C16.d-sax-characters-get-str",
              "xml.sax XMLGenerator.characters(content) ignores falsy content: every argument passed to <writer>.characters() that may be "
              "a Literal (falsy for 0/''/false) is wrapped in str(...)", floor=3)
@@ -201,20 +264,30 @@ def run(repo: Repo, rep: Report) -> None:
                 rep.ob("C16.d-sax-characters-get-str", xm, q, c, ok,
                        "plain str / non-literal term" if ok else "a Literal is handed to characters(): Literal(0) / Literal(False) / Literal('') are falsy and written as empty content", node=c)
 
-    # ------------------------------------------------------------------ (e)
+
+# ------------------------------------------------------------------------------------------------------------------ (e)
+def rule_e_rows_from_bindings(repo: Repo, rep: Report) -> None:
+    """What `serialize` does is what it and the functions of its module that it calls do (vlib.h_c16.reached_code): the row
+    loop may live in serialize or in a method it delegates to."""
+    from vlib import h_c16 as H
+
     rep.rule("C16.e-rows-from-bindings",
              "the JSON/XML/CSV writers take the rows from self.result.bindings (all rows, including those binding nothing); none iterates the "
              "Result object, whose iterator omits all-unbound rows", floor=3)
     for name, cls in (("jsonresults", "JSONResultSerializer"), ("xmlresults", "XMLResultSerializer"), ("csvresults", "CSVResultSerializer")):
         mod = repo.mod("rdflib.plugins.sparql.results." + name)
         f = mod.func(cls + ".serialize")
-        uses = [n for n in ast.walk(f) if isinstance(n, ast.Attribute) and norm(n) == "self.result.bindings"]
-        direct = [n for n in ast.walk(f) if isinstance(n, (ast.For, ast.comprehension)) and norm(n.iter) in ("self.result", "iter(self.result)")]
+        code = H.reached_code(mod, [f], mod.cls(cls))
+        nodes = [n for d in code for n in ast.walk(d)]
+        uses = [n for n in nodes if isinstance(n, ast.Attribute) and norm(n) == "self.result.bindings"]
+        direct = [n for n in nodes if isinstance(n, (ast.For, ast.comprehension)) and norm(n.iter) in ("self.result", "iter(self.result)")]
         ok = bool(uses) and not direct
         rep.ob("C16.e-rows-from-bindings", mod, cls + ".serialize", "rows = self.result.bindings", ok,
                "every row is written" if ok else "the writer iterates the Result object (or not .bindings): rows in which nothing is bound are dropped", node=f)
 
-    # ------------------------------------------------------------------ (f)
+
+# ------------------------------------------------------------------------------------------------------------------ (f)
+def rule_f_no_splitlines(repo: Repo, rep: Report) -> None:
     rep.rule("C16.f-no-splitlines-in-record-readers",
              "the TSV/CSV result readers (and the N-Triples/N-Quads line readers) do not split records with str.splitlines(), which also "
              "splits on VT, FF, FS/GS/RS, NEL, LS and PS - characters that may appear raw inside a literal", floor=4)
@@ -226,20 +299,29 @@ def run(repo: Repo, rep: Report) -> None:
 
 
 def more_rules(repo: Repo, rep: Report) -> None:
-    json_memo_rule(repo, rep, "C16.g-json-terms-parsed-individually")
-    more_rules2(repo, rep)
+    _layer(rep, lambda r_, p_: json_memo_rule(r_, p_, "C16.g-json-terms-parsed-individually"), repo)
+    _layer(rep, rule_h_xml_datatype_written_when_present, repo)
+    _layer(rep, rule_i_bindings_extend_not_replace, repo)
 
 
 def json_memo_rule(repo: Repo, rep: Report, RULE: str) -> None:
+    """The functions looked at are found by what they do - they call parseJsonTerm - not by a name: the row loop of the JSON
+    reader may sit in a helper of JSONResult or in its constructor."""
     js = repo.mod("rdflib.plugins.sparql.results.jsonresults")
     # (g) no lossy memo in front of parseJsonTerm
     rep.rule(RULE,
-             "JSONResult._get_bindings obtains every cell from parseJsonTerm(<that cell's object>); if parsed terms are memoised, the memo key contains "
+             "the JSON result reader obtains every cell from parseJsonTerm(<that cell's object>); if parsed terms are memoised, the memo key contains "
              "all four fields parseJsonTerm reads (type, value, datatype, xml:lang)", floor=1)
-    f = js.func("JSONResult._get_bindings")
-    calls = [c for c in ast.walk(f) if isinstance(c, ast.Call) and norm(c.func) == "parseJsonTerm"]
-    if not calls:
-        raise AnalysisError("JSONResult._get_bindings no longer calls parseJsonTerm")
+    reader = js.func("parseJsonTerm")
+    users = [(q, f) for q, f in _top_functions(js) if f is not reader and _calls_of(f, "parseJsonTerm")]
+    if not users:
+        raise AnalysisError("nothing in %s calls parseJsonTerm any more" % js.rel)
+    for q, f in users:
+        rep.analysed("%s:%s" % (js.rel, q))
+        _json_memo_in(rep, RULE, js, q, f)
+
+
+def _json_memo_in(rep: Report, RULE: str, js, q: str, f: ast.AST) -> None:
     memo_writes = [n for n in ast.walk(f) if isinstance(n, ast.Assign) and any(isinstance(t, ast.Subscript) for t in n.targets)
                    and any(isinstance(x, ast.Call) and norm(x.func) == "parseJsonTerm" for x in ast.walk(n.value))]
     memo_writes += [n for n in ast.walk(f) if isinstance(n, ast.Call) and isinstance(n.func, ast.Attribute) and n.func.attr == "setdefault"
@@ -262,15 +344,14 @@ def json_memo_rule(repo: Repo, rep: Report, RULE: str) -> None:
                 src = norm(n.value)
         if not all(k in src for k in ("type", "value", "datatype", "xml:lang")):
             lossy.append((w, src))
-    rep.ob(RULE, js, "JSONResult._get_bindings", "parseJsonTerm results are not memoised under a partial key", not lossy,
+    rep.ob(RULE, js, q, "parseJsonTerm results are not memoised under a partial key", not lossy,
            "each cell parsed from its own JSON object" if not lossy else "parsed terms are cached under the key %s, which omits a field parseJsonTerm reads: cells differing only in that field collapse to the first one" % lossy[0][1][:80],
            node=lossy[0][0] if lossy else f)
 
 
 
-def more_rules2(repo: Repo, rep: Report) -> None:
+def rule_h_xml_datatype_written_when_present(repo: Repo, rep: Report) -> None:
     xm = repo.mod("rdflib.plugins.sparql.results.xmlresults")
-    qm = repo.mod("rdflib.query")
     # (h) the literal's datatype attribute is written whenever the literal has a datatype
     rep.rule("C16.h-xml-datatype-written-when-present",
              "write_binding adds the datatype attribute under a test of the literal's datatype alone (`val.datatype` / `is not None`), not depending on "
@@ -288,6 +369,9 @@ def more_rules2(repo: Repo, rep: Report) -> None:
     if nd == 0:
         raise AnalysisError("write_binding: datatype attribute write not found")
 
+
+def rule_i_bindings_extend_not_replace(repo: Repo, rep: Report) -> None:
+    qm = repo.mod("rdflib.query")
     # (i) rows already handed out are kept
     rep.rule("C16.i-bindings-extend-not-replace",
              "Result.bindings, when it drains the pending generator, extends the list of rows already collected (Result.__iter__ appends the rows it "
@@ -315,7 +399,7 @@ _run_base = run
 
 
 def run(repo: Repo, rep: Report) -> None:  # noqa: F811
-    _run_base(repo, rep)
+    _layer(rep, _run_base, repo)
     rep.rule("C16.j-carriage-return-as-character-reference",
              "XML line-end normalisation (XML 1.0 2.11) turns a raw CR, and CR LF, in element content into LF before the reader sees it; a writer of literal text therefore emits "
              "CR as the character reference &#13;. The repository's XMLWriter.text does (escape(text, {'\\r': '&#13;'})); the SPARQL XML results writer, which uses "
@@ -348,9 +432,12 @@ _run_base2 = run
 
 
 def run(repo: Repo, rep: Report) -> None:  # noqa: F811
-    _run_base2(repo, rep)
-    from vlib.cfg import CFG
+    _layer(rep, _run_base2, repo)
+    for f in (rule_k_text_layer_keeps_line_ends, rule_l_results_element_on_every_select_path, rule_m_row_recorded_before_handed_out):
+        _layer(rep, f, repo)
 
+
+def rule_k_text_layer_keeps_line_ends(repo: Repo, rep: Report) -> None:
     # ------------------------------------------------------------------ (k)
     rep.rule("C16.k-text-layer-keeps-line-ends",
              "a result reader that wraps a binary source in a text layer does not let that layer translate line ends: io.TextIOWrapper without newline='' (its default is universal "
@@ -371,6 +458,10 @@ def run(repo: Repo, rep: Report) -> None:  # noqa: F811
     if n_wrap == 0:
         rep.ob("C16.k-text-layer-keeps-line-ends", repo.mod("rdflib.plugins.sparql.results.csvresults"), "<module>", "no text layer over binary sources", True, "", node=repo.mod("rdflib.plugins.sparql.results.csvresults").tree)
 
+
+def rule_l_results_element_on_every_select_path(repo: Repo, rep: Report) -> None:
+    from vlib.cfg import CFG
+
     # ------------------------------------------------------------------ (l)
     rep.rule("C16.l-results-element-on-every-select-path",
              "XMLResultSerializer.serialize opens the <results> element (write_results_header) on every path of the SELECT branch before the rows are written - not on demand from "
@@ -387,6 +478,8 @@ def run(repo: Repo, rep: Report) -> None:  # noqa: F811
            "<results> opened before the rows, also for zero rows" if ok else
            "serialize does not open <results> itself: with zero rows the document has no <results> element and cannot be read back", node=hdr[0] if hdr else sf)
 
+
+def rule_m_row_recorded_before_handed_out(repo: Repo, rep: Report) -> None:
     # ------------------------------------------------------------------ (m)
     rep.rule("C16.m-row-recorded-before-it-is-handed-out",
              "Result.__iter__ (draining the lazy solution generator) appends a row to the collected list BEFORE yielding it: a consumer that stops after the first row closes the "
@@ -424,14 +517,18 @@ GRAMMAR = "rdflib.plugins.sparql.parser"
 
 
 def run(repo: Repo, rep: Report) -> None:  # noqa: F811
-    _run_base3(repo, rep)
-    rule_n_reader_keeps_every_row(repo, rep)
-    rule_o_signed_numbers_from_lexical_form(repo, rep)
-    rule_p_no_codecs_reader_under_line_consumer(repo, rep)
-    terminals = rule_q_string_terminals_accept_what_is_decoded(repo, rep)
-    rule_r_codepoint_escapes_expanded_before_grammar(repo, rep, terminals)
-    rule_s_iri_presence_by_identity(repo, rep)
-    rule_t_csv_marker_stripped(repo, rep)
+    _layer(rep, _run_base3, repo)
+    found: dict = {}
+
+    def rule_q(r_: Repo, p_: Report) -> None:
+        found["terminals"] = rule_q_string_terminals_accept_what_is_decoded(r_, p_)
+
+    def rule_r(r_: Repo, p_: Report) -> None:
+        rule_r_codepoint_escapes_expanded_before_grammar(r_, p_, found.get("terminals"))
+
+    for f in (rule_n_reader_keeps_every_row, rule_o_signed_numbers_from_lexical_form, rule_p_no_codecs_reader_under_line_consumer, rule_q, rule_r,
+              rule_s_iri_presence_by_identity, rule_t_csv_marker_stripped):
+        _layer(rep, f, repo)
 
 
 # ---------------------------------------------------------------------------------------------------------------- (n)
@@ -464,12 +561,15 @@ def rule_n_reader_keeps_every_row(repo: Repo, rep: Report) -> None:
                        "rows are filtered by `%s`: a row in which nothing is bound is dropped" % norm(bad[0])[:60], node=n)
         for q, f in mod.functions():
             returned = {r.value.id for r in own_nodes(f) if isinstance(r, ast.Return) and isinstance(r.value, ast.Name)}
+            # local lists that become <x>.bindings inside this very function (the row loop written in place, or inlined)
+            stored = {a.value.id for a in own_nodes(f) if isinstance(a, ast.Assign) and isinstance(a.value, ast.Name)
+                      and any(isinstance(t, ast.Attribute) and t.attr == "bindings" for t in a.targets)}
             for c in own_nodes(f):
                 if not (isinstance(c, ast.Call) and isinstance(c.func, ast.Attribute) and c.func.attr == "append" and len(c.args) == 1):
                     continue
                 recv = c.func.value
                 is_rows = (isinstance(recv, ast.Attribute) and recv.attr == "bindings") or (
-                    isinstance(recv, ast.Name) and recv.id in returned and f.name in feeders)
+                    isinstance(recv, ast.Name) and ((recv.id in returned and f.name in feeders) or recv.id in stored))
                 if not is_rows:
                     continue
                 loop = H.innermost_loop(mod, c, f)
@@ -478,10 +578,24 @@ def rule_n_reader_keeps_every_row(repo: Repo, rep: Report) -> None:
                 rep.analysed("%s:%s" % (mod.rel, q))
                 variant = H.bound_in(loop)
                 row_names = H.derived_names(loop, H.names_in(c.args[0]) & variant)
-                bad = [t for t in H.guard_tests(mod, c, loop) if H.names_in(t) & row_names]
+                # Among the names the row is computed from, those that hold the record as it was read (the line, the csv row) may be
+                # tested for ONE thing: emptiness, in a condition that also looks at the number of variables - that is the skip of
+                # an empty record of the second clause (decided below and by rule y), not a dependence on what the row binds.
+                records = H.record_names(loop) & row_names
+                var_count_names = _var_count_names(f)
+
+                def is_record_skip(test: ast.expr, negated: bool) -> bool:
+                    leaves = H.conj_leaves(test, negated)
+                    if leaves is None:
+                        return False
+                    on_row = [(l, ng) for l, ng in leaves if H.names_in(l) & row_names]
+                    counts = [l for l, ng in leaves if not (H.names_in(l) & row_names) and _looks_at_var_count(l, var_count_names)]
+                    return bool(counts) and all(H.names_in(l) & row_names <= records and H.is_emptiness_test(l, ng, records) for l, ng in on_row)
+
+                bad = [t for t, ng in _branch_tests(mod, c, loop, taken=False) if H.names_in(t) & row_names and not is_record_skip(t, ng)]
                 jumps = [s for s in ast.walk(loop) if isinstance(s, (ast.Continue, ast.Break)) and H.innermost_loop(mod, s, f) is loop]
                 for s in jumps:
-                    bad += [t for t in H.guard_tests(mod, s, loop) if H.names_in(t) & row_names]
+                    bad += [t for t, ng in _branch_tests(mod, s, loop, taken=True) if H.names_in(t) & row_names and not is_record_skip(t, ng)]
                 rep.ob(RULE, mod, q, c, not bad, "unconditional in the row loop" if not bad else
                        "the row is added only under `%s`: a row in which no variable is bound is dropped by the reader" % norm(bad[0])[:80], node=c)
                 # skipped empty records
@@ -496,18 +610,41 @@ def rule_n_reader_keeps_every_row(repo: Repo, rep: Report) -> None:
                                 sides = [leaf.left, leaf.comparators[0]]
                                 if any(isinstance(x, ast.Constant) and x.value in ("", b"") for x in sides) and any(H.names_in(x) & variant for x in sides):
                                     empt.append(leaf)
-                            elif isinstance(leaf, ast.Name) and leaf.id in variant and leaf.id not in row_names:
+                            elif isinstance(leaf, ast.Name) and leaf.id in variant and (leaf.id in records or leaf.id not in row_names):
                                 # `if not line: continue` - a record name, i.e. one that (transitively) feeds the appended row
                                 if leaf.id in _feeds(loop, row_names | H.names_in(c.args[0])):
                                     empt.append(leaf)
                     if not empt:
                         continue
-                    var_count_names = {t.id for a in own_nodes(f) if isinstance(a, ast.Assign) and any(isinstance(x, ast.Attribute) and x.attr == "vars" for x in ast.walk(a.value))
-                                       for t in a.targets if isinstance(t, ast.Name)}
-                    looks = any((isinstance(x, ast.Attribute) and x.attr == "vars") or (isinstance(x, ast.Name) and x.id in var_count_names) for t in tests for x in ast.walk(t))
+                    looks = any(_looks_at_var_count(t, var_count_names) for t in tests)
                     rep.ob(RULE, mod, q, "skip of an empty record: if %s: continue" % " / ".join(norm(t) for t in tests)[:120], looks,
                            "only when the table does not have exactly one variable" if looks else
                            "an empty record is skipped whatever the number of variables: in a one-variable table the empty line is the row that leaves the variable unbound, it is lost", node=s)
+
+
+def _var_count_names(f: ast.AST) -> set:
+    """local names of f that are computed from <x>.vars (the list of variables, its length)"""
+    return {t.id for a in own_nodes(f) if isinstance(a, ast.Assign) and any(isinstance(x, ast.Attribute) and x.attr == "vars" for x in ast.walk(a.value))
+            for t in a.targets if isinstance(t, ast.Name)}
+
+
+def _looks_at_var_count(test: ast.AST, var_count_names: set) -> bool:
+    return any((isinstance(x, ast.Attribute) and x.attr == "vars") or (isinstance(x, ast.Name) and x.id in var_count_names) for x in ast.walk(test))
+
+
+def _branch_tests(mod, node: ast.AST, stop: ast.AST, taken: bool) -> list:
+    """[(test, negated)] for the if statements between node and stop: the condition (`not test` when negated) under which node is
+    reached (taken=True) or is passed over (taken=False) as far as that `if` is concerned"""
+    out = []
+    child = node
+    for p in mod.parents(node):
+        if p is stop:
+            break
+        if isinstance(p, ast.If):
+            in_body = any(child is x for x in p.body)
+            out.append((p.test, in_body != taken))
+        child = p
+    return out
 
 
 def _feeds(loop: ast.AST, sinks: set) -> set:
@@ -759,7 +896,7 @@ def rule_q_string_terminals_accept_what_is_decoded(repo: Repo, rep: Report) -> s
 
 
 # ---------------------------------------------------------------------------------------------------------------- (r)
-def rule_r_codepoint_escapes_expanded_before_grammar(repo: Repo, rep: Report, terminals: set) -> None:
+def rule_r_codepoint_escapes_expanded_before_grammar(repo: Repo, rep: Report, terminals) -> None:
     """F80.  The string terminals do not know \\uXXXX / \\UXXXXXXXX (rule q: their escape class has no u/U): whoever hands text
     to a grammar element that reaches them expands those escapes first - parseQuery/parseUpdate do, every other entry must too."""
     from vlib import h_c16 as H
@@ -770,6 +907,8 @@ def rule_r_codepoint_escapes_expanded_before_grammar(repo: Repo, rep: Report, te
              "the SPARQL string terminals do not accept the codepoint escapes \\uXXXX and \\UXXXXXXXX; every <element>.parse_string(text) in the SPARQL package whose "
              "element reaches a string terminal therefore gets text that has passed through a codepoint-escape expander (a function substituting chr(int(hex, 16)) for a "
              "pattern with \\\\u) on every path - as parseQuery and parseUpdate do, so does the TSV result reader, or the conformant cell \"caf\\u00E9\" is a parse error", floor=3)
+    if terminals is None:
+        raise AnalysisError("the string terminals of the grammar were not found (rule q)")
     gm = repo.mod(GRAMMAR)
     targets = {(gm.name, t) for t in terminals}
     n_sites = 0
@@ -929,7 +1068,8 @@ def rule_t_csv_marker_stripped(repo: Repo, rep: Report) -> None:
     rep.analysed("%s:CSVResultSerializer.serializeTerm" % mod.rel, "%s:CSVResultParser.convertTerm" % mod.rel)
     tv = w.args.args[1].arg
     markers = {}
-    for cls, body in _isinstance_arms(w, tv):
+    for cls, _code, arm_if in H.class_arms(repo, mod, w, tv):
+        body = arm_if.body  # the marker is recognised as <constant> + <the term>, in terms of serializeTerm's own parameter
         for s in body:
             for x in ast.walk(s):
                 if not isinstance(x, ast.Return) or x.value is None:
@@ -974,3 +1114,389 @@ def rule_t_csv_marker_stripped(repo: Repo, rep: Report) -> None:
                     why = "%s is built from `%s`, which still carries the marker %r: BNode('b1') -> '_:b1' -> BNode('_:b1')" % (cls, norm(a) if a is not None else "", m)
             rep.ob(RULE, mod, "CSVResultParser.convertTerm", "%s written as %r + text, read by %s" % (cls, m, norm(ctors[0]) if ctors else "?"), ok,
                    "the marker is stripped" if ok else why, node=ctors[0] if ctors else arm)
+
+
+# =====================================================================================================================
+# rules u..y: structural conditions behind the defects F215-F219 (each was found on the repaired tree and repaired there)
+
+_run_base4 = run
+
+EXPLANATION_UY = (
+    "(u) whatever consumes a csv.reader in a result reader runs after csv.field_size_limit has been raised to the largest portable value; (v) the JSON "
+    "text handed to json.loads is the source's own bytes/str, never a transcoding under a fixed codec; (w) a JSON text that is encoded with a caller-chosen "
+    "encoding was dumped with ensure_ascii depending on that encoding (or on); (x) a line read with readline() reaches the row/header grammar only after a "
+    "trailing carriage return was removed on every path; (y) the header grammar is applied only to a non-empty header (or is nullable) and an empty record is "
+    "never skipped in a table with no or one variable. "
+)
+
+
+def run(repo: Repo, rep: Report) -> None:  # noqa: F811
+    _layer(rep, _run_base4, repo)
+    rep.extra["explanation"] = rep.extra["explanation"].replace("The remaining TSV grammar", EXPLANATION_UY + "The remaining TSV grammar")
+    for f in (rule_u_csv_field_limit_raised, rule_v_json_source_not_transcoded, rule_w_json_escaped_for_non_unicode_encoding,
+              rule_x_carriage_return_dropped_before_grammar, rule_y_table_without_variables, rule_m_on_the_cfg):
+        _layer(rep, f, repo)
+
+
+def rule_m_on_the_cfg(repo: Repo, rep: Report) -> None:
+    """Rule m, decided on the control-flow graph instead of on the statement order inside one block (Result.__iter__ was rewritten
+    into a replay loop, where the late append can sit in an `if` of its own after the yield): a statement that records a row in
+    ._bindings is not reachable from a yield without a fetch of the next row from the generator in between."""
+    from vlib.cfg import CFG
+
+    RULE = "C16.m-row-recorded-before-it-is-handed-out"
+    qm = repo.mod("rdflib.query")
+    it = qm.func("Result.__iter__")
+    g = CFG(it)
+
+    def fetches(node: ast.AST) -> bool:
+        return any((isinstance(x, ast.Call) and norm(x.func) == "next" and x.args and "_genbindings" in norm(x.args[0]))
+                   or (isinstance(x, ast.Call) and isinstance(x.func, ast.Attribute) and x.func.attr == "__next__" and "_genbindings" in norm(x.func.value)) for x in ast.walk(node))
+
+    fetch_nodes = set()
+    for n in g.stmts():
+        st = n.ast
+        if n.kind == "iter":
+            if "_genbindings" in norm(st.iter) or fetches(st.iter):  # type: ignore[attr-defined]
+                fetch_nodes.add(n.id)
+        elif n.kind == "test":
+            if fetches(st.test):  # type: ignore[attr-defined]
+                fetch_nodes.add(n.id)
+        elif n.kind == "stmt" and st is not None and fetches(st):
+            fetch_nodes.add(n.id)
+    yields = {g.node_of(y, qm) for y in own_nodes(it) if isinstance(y, (ast.Yield, ast.YieldFrom))}
+    records = [c for c in own_nodes(it) if isinstance(c, ast.Call) and isinstance(c.func, ast.Attribute) and c.func.attr in ("append", "extend", "insert") and "_bindings" in norm(c.func.value)]
+    if not fetch_nodes or not records or not yields:
+        raise AnalysisError("Result.__iter__: fetch from _genbindings / recording in _bindings / yield not found")
+    for c in records:
+        a = g.node_of(c, qm)
+        late = [y for y in yields if a not in fetch_nodes and a in g.reach(y, avoid=fetch_nodes)]
+        rep.ob(RULE, qm, "Result.__iter__", "%s [no yield between the fetch and it]" % norm(c), not late,
+               "recorded as soon as it is fetched" if not late else
+               "the row is recorded only after it was yielded (no fetch of the next row in between): a consumer that stops there closes the generator at the yield, "
+               "`next(iter(result))` followed by result.serialize() loses that row", node=c)
+
+
+def _exchange_modules(repo: Repo) -> list:
+    """the modules in which SPARQL results are read or written: the SPARQL package, the stores (remote endpoints), rdflib.query"""
+    return [m for name, m in sorted(repo.modules.items())
+            if name.startswith("rdflib.plugins.sparql") or name.startswith("rdflib.plugins.stores") or name == "rdflib.query"]
+
+
+# ---------------------------------------------------------------------------------------------------------------- (u)
+def rule_u_csv_field_limit_raised(repo: Repo, rep: Report) -> None:
+    """F215.  The CSV writer puts a term of any length into one field; the csv module refuses to READ a field longer than
+    csv.field_size_limit() (default 131072) - a module-wide setting that has to be raised before the reader is consumed."""
+    from vlib import h_c16 as H
+    from vlib.cfg import CFG
+
+    RULE = "C16.u-csv-reader-field-limit-raised"
+    rep.rule(RULE,
+             "wherever SPARQL results are read, every use of a csv.reader / csv.DictReader object (next(), iteration, handing it on) is preceded on every path by "
+             "csv.field_size_limit(N) with N a constant >= 2**31 - 1 (or sys.maxsize) - called there, or in a function of the module on every path to its return, or in a "
+             "@contextmanager of the module on every path to its yield when the use is inside the `with`: the csv module raises _csv.Error('field larger than field limit (131072)') on "
+             "a longer field, so a result holding Literal('x' * 200000) - which CSVResultSerializer writes as one field - could not be parsed back", floor=2)
+    BIG = 2 ** 31 - 1
+
+    def big(mod, e: ast.expr, fn: ast.AST) -> bool:
+        """e, read inside fn, is a constant >= 2**31 - 1: written in place or a module-level constant"""
+        v = H.fold_int_in(repo, mod, e, H.local_names(fn))
+        return (v is not None and v >= BIG) or norm(e) in ("sys.maxsize", "maxsize")
+
+    def sets_limit(caller: ast.AST):
+        """for vlib.h_c16.call_establishes: csv.field_size_limit(N) puts the large limit in force when N is big - N as written,
+        or the argument that the caller hands in for the parameter N of the helper the call sits in - and takes it back otherwise"""
+        def sets(mod, call: ast.Call, env, fn):
+            if not (H.denotes(mod, call.func, "csv", ("field_size_limit",)) and len(call.args) == 1 and not call.keywords):
+                return None
+            a = call.args[0]
+            if env is not None and isinstance(a, ast.Name) and a.id in env:
+                return big(mod, env[a.id], caller)
+            return big(mod, a, fn if fn is not None else caller)
+        return sets
+
+    n_ctor = 0
+    for mod in _exchange_modules(repo):
+        for q, f in mod.functions():
+            ctors = [c for c in own_nodes(f) if isinstance(c, ast.Call) and H.denotes(mod, c.func, "csv", ("reader", "DictReader"))]
+            if not ctors:
+                continue
+            rep.analysed("%s:%s" % (mod.rel, q))
+            g = CFG(f)
+            # the statements after which the large limit is in force: csv.field_size_limit(<big>) itself, a call of a helper of the module
+            # that leaves it raised, a `with` whose context manager raises it on entry
+            owner = H.class_of_function(mod, f)
+            raised = []
+            for c in own_nodes(f):
+                if isinstance(c, ast.Call):
+                    par = mod.parent.get(id(c))
+                    if H.call_establishes(mod, c, owner, sets_limit(f), isinstance(par, ast.withitem) and par.context_expr is c):
+                        raised.append(g.node_of(c, mod))
+            for ctor in ctors:
+                n_ctor += 1
+                st = H.stmt_of(mod, ctor, f)
+                if isinstance(st, ast.Assign) and len(st.targets) == 1 and isinstance(st.targets[0], ast.Name) and (
+                        st.value is ctor or (isinstance(st.value, ast.Call) and norm(st.value.func) in ("iter", "enumerate") and st.value.args and st.value.args[0] is ctor)):
+                    nm = st.targets[0].id
+                    uses = [x for x in own_nodes(f, include_nested=True) if isinstance(x, ast.Name) and x.id == nm and isinstance(x.ctx, ast.Load)]
+                    if not uses:
+                        raise AnalysisError("%s:%s: the csv reader is built but its use was not found" % (mod.rel, q))
+                else:
+                    uses = [ctor]  # consumed (or handed on) where it is built
+                for u in uses:
+                    at = g.node_of(u, mod)
+                    ok = bool(raised) and g.must_pass_before(at, raised)
+                    where = H.stmt_of(mod, u, f)
+                    if isinstance(where, (ast.For, ast.AsyncFor)):
+                        head = "for %s in %s" % (norm(where.target), norm(where.iter))
+                    elif isinstance(where, (ast.While, ast.If)):
+                        head = norm(where.test)
+                    else:
+                        head = norm(where) if where is not None and not isinstance(where, (ast.With, ast.Try)) else norm(u)
+                    rep.ob(RULE, mod, q, "csv reader consumed: %s" % head[:120], ok,
+                           "after csv.field_size_limit(<largest portable value>)" if ok else
+                           "the csv reader is consumed under the csv module's default field limit of 128 KiB: a bound term longer than that, written by the CSV serializer "
+                           "as one field, makes Result.parse(format='csv') raise _csv.Error", node=u)
+    if n_ctor == 0:
+        raise AnalysisError("no csv.reader in the modules that read SPARQL results")
+
+
+# ---------------------------------------------------------------------------------------------------------------- (v)
+def rule_v_json_source_not_transcoded(repo: Repo, rep: Report) -> None:
+    """F216.  json.loads(bytes) detects UTF-8/-16/-32 itself; a `.decode('utf-8')` in front of it undoes that for exactly
+    the encodings the sibling serializer can be asked for (encoding='utf-16')."""
+    from vlib import h_c16 as H
+    from vlib.cfg import CFG, reaching_defs
+
+    RULE = "C16.v-json-source-not-transcoded"
+    rep.rule(RULE,
+             "wherever SPARQL results are read, what reaches json.loads / json.load is what was read from the source: on no def-use path has it been passed through a "
+             "decoding under a fixed codec (x.decode(...), str(x, enc), codecs.decode, a TextIOWrapper / codecs reader) - json.loads detects the Unicode encoding of "
+             "bytes (UTF-8, -16, -32, with or without BOM), while .decode('utf-8') raises UnicodeDecodeError on what JSONResultSerializer writes for encoding='utf-16'", floor=2)
+
+    def transcodes(mod, n: ast.AST) -> bool:
+        if not isinstance(n, ast.Call):
+            return False
+        if any(isinstance(x, (ast.Name, ast.Attribute)) and norm(x).split(".")[-1] == "detect_encoding" for a in list(n.args) + [k.value for k in n.keywords] for x in ast.walk(a)):
+            return False
+        if isinstance(n.func, ast.Attribute) and n.func.attr == "decode":
+            return True
+        if isinstance(n.func, ast.Name) and n.func.id == "str" and (len(n.args) >= 2 or any(k.arg in ("encoding", "errors") for k in n.keywords)):
+            return True
+        last = norm(n.func).split(".")[-1]
+        return last in ("TextIOWrapper", "getreader", "StreamReader", "EncodedFile") or H.denotes(mod, n.func, "codecs", ("decode", "open", "iterdecode"))
+
+    n_sites = 0
+    for mod in _exchange_modules(repo):
+        for q, f in mod.functions():
+            g = None
+            for c in own_nodes(f):
+                if not (isinstance(c, ast.Call) and H.denotes(mod, c.func, "json", ("loads", "load")) and c.args):
+                    continue
+                n_sites += 1
+                rep.analysed("%s:%s" % (mod.rel, q))
+                if g is None:
+                    g = CFG(f)
+                bad: list = []
+                seen: set = set()
+                work = [(c.args[0], g.node_of(c, mod))]
+                while work:
+                    e, at = work.pop()
+                    for x in ast.walk(e):
+                        if transcodes(mod, x):
+                            bad.append(x)
+                        if isinstance(x, ast.Name) and isinstance(x.ctx, ast.Load) and (x.id, at) not in seen:
+                            seen.add((x.id, at))
+                            for d in reaching_defs(g, at, x.id):
+                                st = g.nodes[d].ast
+                                if d != g.entry and isinstance(st, (ast.Assign, ast.AnnAssign)) and st.value is not None:
+                                    work.append((st.value, d))
+                rep.ob(RULE, mod, q, c, not bad, "the source's own text" if not bad else
+                       "the JSON text passes through `%s` before json.loads: a result serialised with encoding='utf-16' (or utf-32), which json.loads alone would read, raises "
+                       "UnicodeDecodeError" % norm(bad[0])[:60], node=bad[0] if bad else c)
+    if n_sites == 0:
+        raise AnalysisError("no json.loads / json.load where SPARQL results are read")
+
+
+# ---------------------------------------------------------------------------------------------------------------- (w)
+def rule_w_json_escaped_for_non_unicode_encoding(repo: Repo, rep: Report) -> None:
+    """F217.  JSON has no encoding declaration: its readers detect UTF-8/-16/-32 only.  A text that is encoded with any other
+    codec is readable only if it is pure ASCII, i.e. was dumped with ensure_ascii on."""
+    from vlib import h_c16 as H
+    import codecs as _codecs
+
+    RULE = "C16.w-json-escaped-for-non-unicode-encoding"
+    rep.rule(RULE,
+             "in the result writers, a text produced by json.dumps and then encoded - <text>.encode(E) - with an encoding E the caller chooses is dumped with ensure_ascii "
+             "absent / True / an expression computed from E; never the constant False (and with a constant non-UTF E never False either): serialize(format='json', "
+             "encoding='latin-1') of Literal('caf\\u00e9') otherwise writes the byte E9, which no JSON reader can detect or decode", floor=1)
+    for short in RESULT_READERS + ("txtresults",):
+        mod = repo.mod(RESULTS_PKG + short)
+        for q, f in mod.functions():
+            for c in own_nodes(f):
+                if not (isinstance(c, ast.Call) and H.denotes(mod, c.func, "json", ("dumps",))):
+                    continue
+                encs = []
+                par = mod.parent.get(id(c))
+                if isinstance(par, ast.Attribute) and par.attr == "encode" and isinstance(mod.parent.get(id(par)), ast.Call):
+                    encs.append(mod.parent[id(par)])
+                st = H.stmt_of(mod, c, f)
+                if isinstance(st, (ast.Assign, ast.AnnAssign)) and st.value is c:
+                    tg = st.targets if isinstance(st, ast.Assign) else [st.target]
+                    held = {t.id for t in tg if isinstance(t, ast.Name)}
+                    encs += [x for x in own_nodes(f) if isinstance(x, ast.Call) and isinstance(x.func, ast.Attribute) and x.func.attr == "encode"
+                             and isinstance(x.func.value, ast.Name) and x.func.value.id in held]
+                kw = [k.value for k in c.keywords if k.arg == "ensure_ascii"]
+                for e in encs:
+                    rep.analysed("%s:%s" % (mod.rel, q))
+                    E = e.args[0] if e.args else next((k.value for k in e.keywords if k.arg == "encoding"), None)
+                    const_false = bool(kw) and isinstance(kw[0], ast.Constant) and not kw[0].value
+                    if E is None:
+                        ok, why = True, "encoded as UTF-8"
+                    elif H.const_str(E) is not None:
+                        try:
+                            uni = _codecs.lookup(H.const_str(E)).name.startswith("utf")
+                        except LookupError:
+                            uni = False
+                        ok, why = uni or not const_false, "a Unicode encoding, or escaped"
+                    elif not kw or (isinstance(kw[0], ast.Constant) and kw[0].value):
+                        ok, why = True, "every non-ASCII character is escaped"
+                    elif const_false:
+                        ok, why = False, "ensure_ascii=False whatever the encoding"
+                    else:
+                        dep = H.names_in(kw[0]) & H.derived_names(f, H.names_in(E))
+                        ok, why = bool(dep), "ensure_ascii is computed from the encoding (%s)" % ", ".join(sorted(dep)) if dep else "ensure_ascii=%s does not depend on the encoding %s" % (norm(kw[0])[:40], norm(E))
+                    rep.ob(RULE, mod, q, "%s ... %s" % (norm(c)[:90], norm(e)[:60]), ok, why if ok else
+                           why + ": for a non-Unicode encoding (latin-1, cp1252, ...) the non-ASCII characters of literals are written as raw bytes of that codec, which "
+                           "json.loads / any JSON reader rejects or misreads", node=c)
+
+
+# ---------------------------------------------------------------------------------------------------------------- (x)
+def rule_x_carriage_return_dropped_before_grammar(repo: Repo, rep: Report) -> None:
+    """F218.  A TSV document may end its lines in CR LF; readline() keeps both, the grammar knows neither as whitespace
+    (setDefaultWhitespaceChars(' \\n')) nor inside a term: the CR has to go before the text is parsed."""
+    from vlib import h_c16 as H
+
+    RULE = "C16.x-carriage-return-dropped-before-grammar"
+    rep.rule(RULE,
+             "in the result readers, a text that comes from a line-wise read (<src>.readline(), next(), iteration) and is handed to <element>.parse_string() has lost a "
+             "trailing carriage return on every def-use path: through .strip()/.rstrip() without argument or with one containing '\\r', .removesuffix/.replace of "
+             "'\\r', or `if t.endswith('\\r'): t = t[:-1]` that every path passes after the last other binding. '?x\\r\\n<a>\\r\\n' is a conformant TSV document; with "
+             "the CR left on the row the grammar raises ParseException", floor=2)
+    n = 0
+    for short in RESULT_READERS:
+        mod = repo.mod(RESULTS_PKG + short)
+        for q, f in mod.functions():
+            for c in own_nodes(f):
+                if not (isinstance(c, ast.Call) and isinstance(c.func, ast.Attribute) and c.func.attr in ("parse_string", "parseString") and c.args):
+                    continue
+                tr = H.LineTrace(mod, f)
+                ok = tr.cr_free(c.args[0], tr.g.node_of(c, mod))
+                if "readline" not in tr.sources:
+                    continue
+                n += 1
+                rep.analysed("%s:%s" % (mod.rel, q))
+                rep.ob(RULE, mod, q, c, ok, "the carriage return of a CR LF line end is removed first" if ok else
+                       "the line reaches %s.parse_string with the carriage return of a CR LF line end still on it: every row of a TSV document with CR LF line ends "
+                       "raises ParseException" % norm(c.func.value), node=c)
+    if n == 0:
+        raise AnalysisError("no parse_string on a line read with readline() in the result readers")
+
+
+# ---------------------------------------------------------------------------------------------------------------- (y)
+def rule_y_table_without_variables(repo: Repo, rep: Report) -> None:
+    """F219.  SELECT * {} has no variables and one solution: CSV/TSV render it as an empty header line and one empty line.
+    The CSV reader takes that (next(reader) == []); the TSV reader must not hand the empty header to a grammar that wants a variable,
+    and must not skip the empty lines that ARE the rows."""
+    from vlib import h_c16 as H
+
+    RULE = "C16.y-table-without-variables"
+    rep.rule(RULE,
+             "in the line-oriented result readers (1) the statement that sets .vars from <HEADER>.parse_string(text) is control-dependent on a test of that text (the "
+             "empty header line is a table without variables), unless the header element can match the empty string - Var + ZeroOrMore(tab + Var) cannot; (2) the "
+             "test under which an empty record is skipped is false both for a table with 0 and with 1 variable: there the empty line is the row ('\\n\\n' is SELECT * {} "
+             "with its one solution, as the CSV reader reads it)", floor=2)
+    n1 = n2 = 0
+    for short in RESULT_READERS:
+        mod = repo.mod(RESULTS_PKG + short)
+        for q, f in mod.functions():
+            prm = H.params(f)
+            # (1)
+            for st in own_nodes(f):
+                if not (isinstance(st, (ast.Assign, ast.AnnAssign)) and st.value is not None):
+                    continue
+                tg = st.targets if isinstance(st, ast.Assign) else [st.target]
+                if not any(isinstance(t, ast.Attribute) and t.attr == "vars" for t in tg):
+                    continue
+                for c in ast.walk(st.value):
+                    if not (isinstance(c, ast.Call) and isinstance(c.func, ast.Attribute) and c.func.attr in ("parse_string", "parseString") and c.args):
+                        continue
+                    n1 += 1
+                    rep.analysed("%s:%s" % (mod.rel, q))
+                    if H.grammar_nullable(repo, mod, c.func.value):
+                        rep.ob(RULE, mod, q, c, True, "%s can match the empty header" % norm(c.func.value), node=c)
+                        continue
+                    text_names = (_feeds(f, H.names_in(c.args[0])) - prm)
+                    text_names |= H.derived_names(f, text_names) - prm
+                    guards = [t for t in H.guard_tests(mod, st, f) if H.names_in(t) & text_names]
+                    rep.ob(RULE, mod, q, c, bool(guards), "only under a test of the header text: %s" % norm(guards[0])[:60] if guards else
+                           "%s needs at least one variable and is applied to the header line unconditionally: the table without variables (an empty header line, what "
+                           "SELECT * {} gives and the CSV reader accepts) raises ParseException" % norm(c.func.value), node=c)
+            # (2)
+            var_lists = {t.id for a in own_nodes(f) if isinstance(a, ast.Assign) and isinstance(a.value, ast.Attribute) and a.value.attr == "vars" for t in a.targets if isinstance(t, ast.Name)}
+
+            def is_vars(e: ast.AST) -> bool:
+                return (isinstance(e, ast.Attribute) and e.attr == "vars") or (isinstance(e, ast.Name) and e.id in var_lists)
+
+            counts = {t.id for a in own_nodes(f) if isinstance(a, ast.Assign) and isinstance(a.value, ast.Call) and norm(a.value.func) == "len" and a.value.args
+                      and is_vars(a.value.args[0]) for t in a.targets if isinstance(t, ast.Name)}
+
+            def is_count(e: ast.AST) -> bool:
+                return (isinstance(e, ast.Call) and norm(e.func) == "len" and len(e.args) == 1 and is_vars(e.args[0])) or (isinstance(e, ast.Name) and e.id in counts)
+
+            for s in own_nodes(f):
+                if not isinstance(s, ast.Continue):
+                    continue
+                loop = H.innermost_loop(mod, s, f)
+                appends = [a for a in ast.walk(loop) if isinstance(a, ast.Call) and isinstance(a.func, ast.Attribute) and a.func.attr == "append"
+                           and isinstance(a.func.value, ast.Attribute) and a.func.value.attr == "bindings" and H.innermost_loop(mod, a, f) is loop] if loop is not None else []
+                if not appends:
+                    continue
+                variant = H.bound_in(loop)
+                leaves: list = []
+                child: ast.AST = s
+                for p in mod.parents(s):
+                    if p is loop:
+                        break
+                    if isinstance(p, ast.If):
+                        if any(child is x for x in p.body):
+                            leaves += list(_and_leaves(p.test))
+                        else:
+                            # the else branch: what is known there are the conjuncts of `not test` (nothing, when that is a disjunction)
+                            for l, ng in H.conj_leaves(p.test, True) or []:
+                                leaves.append(ast.copy_location(ast.UnaryOp(op=ast.Not(), operand=l), l) if ng else l)
+                    child = p
+                empt = [l for l in leaves if (isinstance(l, ast.Compare) and len(l.ops) == 1 and isinstance(l.ops[0], ast.Eq)
+                                              and any(isinstance(x, ast.Constant) and x.value in ("", b"") for x in (l.left, l.comparators[0]))
+                                              and any(H.names_in(x) & variant for x in (l.left, l.comparators[0])))
+                        or (isinstance(l, ast.UnaryOp) and isinstance(l.op, ast.Not) and isinstance(l.operand, ast.Name) and l.operand.id in variant)]
+                if not empt:
+                    continue
+                n2 += 1
+                cnt = [l for l in leaves if isinstance(l, ast.Compare) and any(is_count(x) for x in [l.left] + l.comparators)]
+                verdicts = {}
+                for nvars in (0, 1):
+                    vals = [H.eval_count_test(l, is_count, nvars) for l in cnt]
+                    if any(v is None for v in vals):
+                        raise AnalysisError("%s:%s: the test on the number of variables `%s` is not a comparison with integer constants" % (mod.rel, q, " and ".join(norm(l) for l in cnt)[:80]))
+                    verdicts[nvars] = bool(cnt) and not all(vals)  # the skip cannot happen
+                ok = verdicts[0] and verdicts[1]
+                lost = [k for k in (0, 1) if not verdicts[k]]
+                rep.ob(RULE, mod, q, "skip of an empty record: if %s: continue" % " and ".join(norm(l) for l in leaves)[:120], ok,
+                       "never in a table with 0 or 1 variable" if ok else
+                       "an empty record is skipped in a table with %s variable(s), where the empty line is a row: %s" % (
+                           " or ".join(str(k) for k in lost), "'\\n\\n' (SELECT * {} with one solution) is read as a table without rows" if 0 in lost else "'?x\\n\\n' loses the row that leaves ?x unbound"), node=s)
+    if n1 == 0:
+        raise AnalysisError("no <x>.vars = <HEADER>.parse_string(...) in the result readers")
+    if n2 == 0:
+        raise AnalysisError("no skip of an empty record in the row loop of a line-oriented result reader (the TSV reader skipped '' when the table has more than one variable)")
